@@ -64,6 +64,28 @@ func c14Kinds() []c14kind {
 			p.Send(wire.Tsetattr, tag, fid, u(1), u(0600), u(0), u(0), u(0), u(0), u(0), u(0), u(0))
 		}, underA},
 	}
+	// requests that re-use an occupied fid number: the File of the replaced
+	// binding is closed on their behalf (parked in that Close)
+	occupied := func(cc *concConn) (uint64, bool) { return cc.fidAt("/a/h", 'u', false) }
+	ks = append(ks,
+		c14kind{"walk-onto-occupied-fid@Close", memfs.Match{Method: "Close", Path: "/a/h"}, occupied, func(p *rawpeer.Peer, tag uint16, fid uint64) {
+			p.Send(wire.Twalk, tag, u(0), fid, []string{"a", "g"})
+		}, underA},
+		c14kind{"clone-onto-occupied-fid@Close", memfs.Match{Method: "Close", Path: "/a/h"}, occupied, func(p *rawpeer.Peer, tag uint16, fid uint64) {
+			p.Send(wire.Twalk, tag, u(0), fid, []string{})
+		}, underA},
+		c14kind{"attach-onto-occupied-fid@Close", memfs.Match{Method: "Close", Path: "/a/h"}, occupied, func(p *rawpeer.Peer, tag uint16, fid uint64) {
+			p.Send(wire.Tattach, tag, fid, u(wire.NOFID), "u", "a", u(wire.NOUID))
+		}, underA},
+		c14kind{"xattrwalk-onto-occupied-fid@Close", memfs.Match{Method: "Close", Path: "/a/h"}, func(cc *concConn) (uint64, bool) {
+			if _, ok := cc.fidAt("/a/h", 'u', false); !ok { // becomes fid next-1... the occupied newfid
+				return 0, false
+			}
+			return cc.fidAt("/a/g", 'u', false)
+		}, func(p *rawpeer.Peer, tag uint16, fid uint64) {
+			p.Send(wire.Txattrwalk, tag, fid, fid-1, "user.x") // newfid = the fid bound to /a/h just before
+		}, underA},
+	)
 	for k, nm := range []string{"a", "b", "f"} {
 		nm := nm
 		ks = append(ks, c14kind{fmt.Sprintf("walk3@component%d", k+1), memfs.Match{Method: "Walk", Name: nm}, func(cc *concConn) (uint64, bool) { return 0, true },
